@@ -54,7 +54,8 @@ def worker_env():
     return env
 
 
-def run_shards(mod, prop_id, tier, seed, jobs, tmp, replay_case=None):
+def run_shards(mod, prop_id, tier, seed, jobs, tmp, replay_case=None,
+               replay_O=False):
     n_shards = getattr(mod, "SHARDS", {}).get(tier, 16 if tier == "quick"
                                               else 64)
     timeout = getattr(mod, "TIMEOUT", {}).get(tier, 600 if tier == "quick"
@@ -75,14 +76,24 @@ def run_shards(mod, prop_id, tier, seed, jobs, tmp, replay_case=None):
     while pending or running:
         while pending and len(running) < jobs:
             i = pending.pop(0)
+            # the process the library runs in is part of its input: shards
+            # take turns at four ambient settings (see worker.ambient)
+            ambient = replay_O if replay_case is not None else i % 4
             spec = dict(prop=prop_id, tier=tier, seed=seed, shard=i,
-                        n_shards=n_shards, replay_case=replay_case)
+                        n_shards=n_shards, replay_case=replay_case,
+                        ambient=int(ambient))
             sp = os.path.join(tmp, "spec%d.json" % i)
             op = os.path.join(tmp, "out%d.json" % i)
             json.dump(spec, open(sp, "w"))
             log = open(os.path.join(tmp, "log%d.txt" % i), "w")
+            # every fourth shard runs the interpreter with assertions
+            # compiled away (python -O): a deployment the library has to work
+            # in, and nothing in the harness depends on assert statements
+            env_i = env
+            if ambient == 3:
+                env_i = dict(env, PYTHONOPTIMIZE="1")
             p = subprocess.Popen([PY, "-m", "rv.worker", sp, op],
-                                 cwd=core.VERIF, env=env, stdout=log,
+                                 cwd=core.VERIF, env=env_i, stdout=log,
                                  stderr=subprocess.STDOUT)
             running[i] = (p, time.time(), op, log)
         time.sleep(0.05)
@@ -163,6 +174,7 @@ def write_replay(prop_id, tier, seed, v, n):
     json.dump(dict(property=prop_id, tier=tier, seed=seed, cls=v.get("cls"),
                    idx=v.get("idx"), kind=v["kind"], msg=v["msg"],
                    key=v.get("key"), detail=v.get("detail"),
+                   ambient=v.get("ambient", 0),
                    case_repr=v.get("case_repr")), open(path, "w"), indent=1)
     return path
 
@@ -184,7 +196,7 @@ def do_replay(mod, prop_id, path):
             return 1 if bad else 0
         results, failures, _, crashes = run_shards(
             mod, prop_id, rec.get("tier", "quick"), rec.get("seed", 0), 1, t,
-            replay_case=rec["case_repr"])
+            replay_case=rec["case_repr"], replay_O=int(rec.get("ambient", 0)))
     m = merge(results)
     print("outcome:", dict(m["outcomes"]), "monitors:", dict(m["monitors"]))
     for f in failures:
